@@ -77,6 +77,14 @@ PoolSeq == CHOOSE s \in [1..Cardinality(BuiltinPool) -> BuiltinPool] : \A a, b \
 BuiltinBatches ==
   LET n == Cardinality(BuiltinPool) IN
   [m \in 1..(n * n) |-> <<PoolSeq[((m - 1) \div n) + 1], PoolSeq[((m - 1) % n) + 1]>>]
+(* A cached value is the lifted denotation of its sub-formula ON THE UNIVERSE OF ITS SCOPE: valid   *)
+(* colours, and the sub-formula's free variables inside their domains.  Outside that universe a     *)
+(* value may hold anything (leaf values such as wild-card sets are not restricted; the quantifier   *)
+(* intersects its body with the restricted unit set before it binds the variable).                  *)
+InScopeEqual(A, B, f, fvd) ==
+  LET fv == FreeVars(f) IN
+  \A sl \in G0.slices :
+    (sl[1] \in Valid0 /\ \A v \in fv : fvd[v] = "" \/ sl[1 + VarIndex(v)] \in D0[sl[1]][fvd[v]]) => A[sl] = B[sl]
 Batches == IF Len(Doc.batches) > 0 THEN Doc.batches ELSE BuiltinBatches
 EnvNat(name, default) == IF name \in DOMAIN IOEnv THEN (CHOOSE x \in 0..4096 : ToString(x) = IOEnv[name]) ELSE default
 Parts == EnvNat("PARTS", 1)
@@ -106,7 +114,7 @@ StateOK ==
          /\ InUnit(G0, out) /\ NoAuxDependence(G0, out)            \* ResultInUnit    (C03)
          /\ out = Alone(f) /\ out = Unshared(f)                    \* BatchTransparent (C04)
   /\ \A k \in DOMAIN ctx.cache :                                    \* CacheSound
-        LET e == ctx.cache[k] IN e.tree.op = "wild" \/ e.set = LiftOpen(e.tree, e.fvd)
+        LET e == ctx.cache[k] IN e.tree.op = "wild" \/ InScopeEqual(e.set, LiftOpen(e.tree, e.fvd), e.tree, e.fvd)
   /\ ScopesBalanced(ctx) /\ CountersSane(ctx) /\ NeverPanics(ctx)  \* Housekeeping    (C14)
 (* liveness: every batch is eventually finished *)
 Finishes == <>(j = Len(Batch))
